@@ -194,6 +194,18 @@ func init() {
 		Technique: "deductive verification: postconditions of js.Lexer.Next and its consume* helpers against the operatorBytes/reservedWordBytes/identifierBytes/op*Tokens/Keywords tables read from the source literals; VCs from go/ssa discharged by z3/cvc5",
 	})
 	registerProp(&PropSpec{
+		ID: "C13", Title: "StreamLexer: chunking-independent, unfreed tokens intact, bounded memory",
+		Sel: []Sel{{Pattern: "buffer.StreamLexer.*", Levels: "SF"}, {Pattern: "buffer.bufferPool.*", Levels: "SF"}, {Pattern: "buffer.NewStreamLexer*", Levels: "S"}},
+		NotDecided: []string{
+			"unfreed tokens stay intact: proved is that bufferPool.swap hands out only new memory, the buffer of an inactive block, or the current buffer when tail == 0 and the free credit covers it, and that swap/free write no byte memory; the pool invariant linking 'inactive' to 'every byte shifted from that block has been freed' (a linked-list accounting invariant over the whole call history) is not stated, so the end-to-end clause is not decided",
+			"bounded memory when every token is freed (a resource bound over the whole stream)",
+			"termination of the refill loop (a reader may return (0, nil) forever) and of bufferPool.free (acyclicity of the block list)",
+			"PeekRune's decoded value on valid UTF-8 (only that it peeks through the same cursor and returns a length in 1..4)",
+			"the lexer built from a reader with a Bytes() method (z.r == nil): only memory safety",
+		},
+		Technique: "deductive verification with ghost state: a prophecy of the byte stream an io.Reader delivers (stream(r,i), delivered(r)); representation invariant 'the buffer holds the last len(buf) delivered bytes' kept by read() for every chunking of the reader; absolute-offset postconditions for Peek/Shift/ShiftLen; VCs from go/ssa discharged by z3/cvc5",
+	})
+	registerProp(&PropSpec{
 		ID: "C10", Title: "JSON parser accepts every valid document and reproduces it",
 		Sel: []Sel{{Pattern: "json.Parser.*", Levels: "STF"}, {Pattern: "json.NewParser", Levels: "S"}},
 		NotDecided: []string{"every document accepted by encoding/json is accepted (needs induction over the JSON grammar against the iterative state machine)"},
